@@ -85,6 +85,10 @@ class Subroutine:
     ) -> None:
         instrs: List[NetQASMInstruction] = []
         for instr in self.instructions:
+            if isinstance(instr, DebugInstruction):
+                # Comments of a debug transpilation have no operands to fill in
+                instrs.append(instr)
+                continue
             ops: List[Union[Operand, int]] = []
             for op in instr.operands:
                 if isinstance(op, Template):
